@@ -167,3 +167,102 @@ Qed.
 Theorem plan_resume_d_replans_when_destination_differs comp dst src e :
   In e src -> dest_holds dst e = false -> In e (plan_resume_d comp dst src).
 Proof. intros He Hh. unfold plan_resume_d. apply filter_In. split; [exact He|]. rewrite Hh, andb_false_r. reflexivity. Qed.
+
+(* ---- resume: the whole run ---- *)
+(* what the resume state keeps out of the plan *)
+Definition resumed_out (comp : list completed) (dst : fs) (e : sentry) : bool := still_completed comp e && dest_holds dst e.
+
+Lemma plan_resume_d_filter comp dst src : plan_resume_d comp dst src = filter (fun e => negb (resumed_out comp dst e)) src.
+Proof. reflexivity. Qed.
+
+Lemma resumed_out_is_skip c ds comp dst e :
+  c_checksum c = false -> c_ignore_times c = false -> resumed_out comp dst e = true -> t_action (plan_entry c ds dst e) = ASkip.
+Proof.
+  intros Hck Hit H. apply (plan_resume_d_harmless c ds comp dst [e] e Hck Hit (or_introl eq_refl)).
+  unfold plan_resume_d. cbn [filter]. fold (resumed_out comp dst e). rewrite H. cbn [negb]. intros [].
+Qed.
+
+(* dropping tasks that are Skip tasks changes neither the final file system, nor the errors, nor a refusal *)
+Lemma exec_all_drop_skips c now (drop : task -> bool) :
+  (forall t, drop t = true -> t_action t = ASkip) ->
+  forall ts m errs evs evs',
+    r_fs (exec_all c now m (filter (fun t => negb (drop t)) ts) errs evs') = r_fs (exec_all c now m ts errs evs) /\
+    r_errors (exec_all c now m (filter (fun t => negb (drop t)) ts) errs evs') = r_errors (exec_all c now m ts errs evs) /\
+    r_refused (exec_all c now m (filter (fun t => negb (drop t)) ts) errs evs') = r_refused (exec_all c now m ts errs evs).
+Proof.
+  intros Hdrop. induction ts as [|t ts IH]; intros m errs evs evs'; cbn [filter exec_all].
+  - cbn. repeat split.
+  - destruct (drop t) eqn:Ed; cbn [negb].
+    + (* a Skip task: the file system stays, only an event is added *)
+      assert (Ex : exec_task c now m t = inl m).
+      { unfold exec_task. rewrite (Hdrop t Ed). destruct (c_dry_run c); reflexivity. }
+      rewrite Ex. apply IH.
+    + cbn [exec_all]. destruct (exec_task c now m t) as [m'|x]; apply IH.
+Qed.
+
+Lemma existsb_path_app_partition (f : sentry -> bool) (p : path) (keep src : list sentry) :
+  existsb (fun e => peqb (se_path e) p) (keep ++ src) =
+  existsb (fun e => peqb (se_path e) p) ((keep ++ filter f src) ++ filter (fun e => negb (f e)) src).
+Proof.
+  rewrite !existsb_app. rewrite <- orb_assoc. f_equal.
+  induction src as [|e src IH]; [reflexivity|]. cbn [existsb filter].
+  destruct (f e); cbn [negb existsb]; rewrite IH;
+    destruct (peqb (se_path e) p), (existsb (fun e0 => peqb (se_path e0) p) (filter f src)),
+             (existsb (fun e0 => peqb (se_path e0) p) (filter (fun e0 => negb (f e0)) src)); reflexivity.
+Qed.
+
+Lemma filter_all_true {A} (f : A -> bool) l : (forall x, In x l -> f x = true) -> filter f l = l.
+Proof. induction l as [|a l IH]; intro H; [reflexivity|]. cbn [filter]. rewrite (H a (or_introl eq_refl)). f_equal. apply IH. intros x Hx. apply H. right; exact Hx. Qed.
+
+Lemma map_plan_filter c ds dst comp src :
+  map (plan_entry c ds dst) (filter (fun e => negb (resumed_out comp dst e)) src)
+  = filter (fun t => negb (match t_src t with Some e => resumed_out comp dst e | None => false end)) (map (plan_entry c ds dst) src).
+Proof.
+  induction src as [|e src IH]; [reflexivity|]. cbn [filter map]. cbn [plan_entry t_src].
+  destruct (resumed_out comp dst e); cbn [negb map]; [exact IH | f_equal; exact IH].
+Qed.
+
+(* THE TWIN STATEMENT for --resume: with any state file [comp], the run that leaves the completed entries out of the plan (they
+   still count for the deletion plan, as the code passes the whole scan to plan_deletions) ends with the same destination, the
+   same errors and the same refusal as the run without resume.  Default comparison flags. *)
+Theorem resume_run_same_outcome refuse ds c now U keep src dst comp :
+  c_checksum c = false -> c_ignore_times c = false ->
+  let out := filter (resumed_out comp dst) src in
+  let r1 := run refuse ds c now U keep src dst in
+  let r2 := run refuse ds c now U (keep ++ out) (plan_resume_d comp dst src) dst in
+  r_fs r2 = r_fs r1 /\ r_errors r2 = r_errors r1 /\ r_refused r2 = r_refused r1.
+Proof.
+  intros Hck Hit out r1 r2. subst out r1 r2. unfold run. rewrite plan_resume_d_filter.
+  set (L := filter (fun p => match dst p with Some _ => true | None => false end) U).
+  (* the deletion plans coincide *)
+  assert (Hd : plan_deletions ((keep ++ filter (resumed_out comp dst) src) ++ filter (fun e => negb (resumed_out comp dst e)) src) L
+               = plan_deletions (keep ++ src) L).
+  { unfold plan_deletions. f_equal. apply filter_ext. intro p. rewrite <- existsb_path_app_partition. reflexivity. }
+  rewrite Hd.
+  set (dels := if c_delete c then plan_deletions (keep ++ src) L else []).
+  destruct (c_delete c && negb (c_force_delete c) && negb match dels with [] => true | _ :: _ => false end
+            && refuse (Z.of_nat (length dels)) (Z.of_nat (length L)) (c_threshold c)); [repeat split|].
+  (* the tasks of the resumed run are those of the plain run minus Skip tasks *)
+  set (drop := fun t : task => match t_src t with Some e => resumed_out comp dst e | None => false end).
+  assert (Hdrop : forall t, In t (map (plan_entry c ds dst) src ++ dels) -> drop t = true -> t_action t = ASkip).
+  { intros t Hin Ht. apply in_app_or in Hin. destruct Hin as [Hin|Hin].
+    - apply in_map_iff in Hin. destruct Hin as (e & <- & _). unfold drop in Ht. cbn [plan_entry t_src] in Ht.
+      apply (resumed_out_is_skip c ds comp dst e Hck Hit Ht).
+    - exfalso. subst dels. destruct (c_delete c); [|destruct Hin]. unfold plan_deletions in Hin. apply in_map_iff in Hin.
+      destruct Hin as (p & <- & _). unfold drop in Ht. cbn in Ht. discriminate. }
+  assert (Hf : map (plan_entry c ds dst) (filter (fun e => negb (resumed_out comp dst e)) src) ++ dels
+               = filter (fun t => negb (drop t)) (map (plan_entry c ds dst) src ++ dels)).
+  { rewrite filter_app. f_equal.
+    - apply map_plan_filter.
+    - symmetry. apply filter_all_true. intros t Hin. subst dels.
+      destruct (c_delete c); [|destruct Hin]. unfold plan_deletions in Hin. apply in_map_iff in Hin. destruct Hin as (p & <- & _). reflexivity. }
+  rewrite Hf.
+  (* exec_all_drop_skips needs the Skip fact for every task; it only ever applies it to tasks of the list: strengthen drop *)
+  set (drop' := fun t : task => drop t && match t_action t with ASkip => true | _ => false end).
+  assert (Hsame : filter (fun t => negb (drop t)) (map (plan_entry c ds dst) src ++ dels)
+                  = filter (fun t => negb (drop' t)) (map (plan_entry c ds dst) src ++ dels)).
+  { apply filter_ext_in. intros t Hin. unfold drop'. destruct (drop t) eqn:Et; [|reflexivity]. rewrite (Hdrop t Hin Et). reflexivity. }
+  rewrite Hsame.
+  apply (exec_all_drop_skips c now drop').
+  intros t Ht. unfold drop' in Ht. apply andb_prop in Ht. destruct Ht as [_ Ht]. destruct (t_action t); try discriminate. reflexivity.
+Qed.
